@@ -257,6 +257,10 @@ pub fn generate(rng: &mut Rng, tier: Tier, stats: &mut GenStats) -> Scenario {
     }
     w.victims = victims;
     w.order = g.order(true);
+    if g.rng.chance(15, 100) {
+        let deepest = tree.iter().map(|n| depth_of(&n.path)).max().unwrap_or(1);
+        w.depth = Depth::Max(g.rng.range(1, deepest + 1));
+    }
     Scenario {
         prop: "C20".into(),
         seed: 0,
@@ -542,8 +546,33 @@ pub fn check(sc: &Scenario, env: &mut Env) -> Result<Outcome, HarnessError> {
         let uv = View::of(&u.log, wi, &sc.cwd);
         let glob = walk_glob(w, &env.root_text);
         let space = Space::of(w, &env.root_text);
-        let visits = model.traverse(&space.start, w.link, None);
-        let hvisits = heal.traverse(&space.start, w.link, None);
+        // a maximum depth: entries beyond it do not exist for the walk, and a directory exactly at
+        // it is yielded but never opened, so its fault never fires
+        let shift = crate::exec::depth_shift(w, &env.root_text);
+        let (_, max) = w.depth.shifted(shift).window();
+        let clip = |vs: Vec<Visit>| -> Vec<Visit> {
+            let Some(max) = max
+            else {
+                return vs;
+            };
+            vs.into_iter()
+                .filter_map(|mut v| {
+                    let d = std::path::Path::new(&space.rel(&v.path)).components().count();
+                    if d > max {
+                        return None;
+                    }
+                    if d == max && v.is_dir && matches!(v.fault, Some(Fault::Unreadable) | Some(Fault::NoSearch)) {
+                        v.fault = None;
+                    }
+                    Some(v)
+                })
+                .collect()
+        };
+        let visits = clip(model.traverse(&space.start, w.link, None));
+        let hvisits = clip(heal.traverse(&space.start, w.link, None));
+        if max.is_some() {
+            out.probe("depth:max-with-faults");
+        }
         let matches = |p: &str| glob.as_ref().map_or(true, |g| g.is_match(space.rel(p).as_str()));
         source_clauses(sc, wi, w, &uv, &visits, &hvisits, &space, glob.is_some(), &matches, &model, &mut out);
         // the stack over it
